@@ -568,6 +568,20 @@ func (g *guardEnv) sliceGuar1(v ssa.Value) predSet {
 		if x.Op != token.MUL {
 			return 0
 		}
+		// a local variable that only this function assigns (it lives in memory because a deferred function literal
+		// reads it): the stores that reach this load
+		if a, ok := x.X.(*ssa.Alloc); ok {
+			if sts, zero, ok := p.reachingStores(x, a); ok {
+				r := pAll
+				if zero && len(sts) == 0 {
+					return pAll // the zero value: an empty list
+				}
+				for _, st := range sts {
+					r &= g.sliceGuar(st.Val)
+				}
+				return r
+			}
+		}
 		// a cell: everything ever stored into it, plus appends made through its address by helper methods
 		if roots := p.cellRoots(x.X); len(roots) > 0 {
 			r := pAll
